@@ -352,6 +352,8 @@ impl FSETable {
     pub fn build_decoder(&mut self, source: &[u8], max_log: u8) -> (r: Result<usize, FSETableError>)
         // contract of FSETable::build_decoder: PROVED in unit F2 (on the verbatim body), ASSUMED wherever the table type is abstract (Q2, HU2V)
         requires max_log <= 9, source@.len() <= 0x1_0000_0000,
+            // RFC 8878 3.1.1.3.2.1.1: the offset table (the only one whose alphabet ends at code 31) allows accuracy logs up to 8 only
+            old(self).max_symbol == 31 ==> max_log <= 8,
         ensures
             final(self).max_symbol == old(self).max_symbol,
             r matches Ok(n) ==> n <= source@.len() && final(self).table_wf() && final(self).accuracy_log != 0,
